@@ -5,6 +5,7 @@ import Urandom.Driver.Serde
 import Urandom.Driver.Fill
 import Urandom.Driver.ReadMock
 import Urandom.Driver.System
+import Urandom.Driver.Float
 open Urandom.Driver
 
 def answer (line : String) : String :=
@@ -32,6 +33,12 @@ def answer (line : String) : String :=
       | "mock" => mockRequest kv
       | "system" => systemRequest kv
       | "newgen" => newgenRequest kv
+      | "fp" => fpRequest kv
+      | "ufloat" => ufloatRequest kv
+      | "expd" => expdRequest kv
+      | "norm" => normRequest false kv
+      | "lnorm" => normRequest true kv
+      | "zig" => zigRequest kv
       | "slpblock" => slpblockRequest kv
       | "specblock" => specblockRequest kv
       | _ => none
